@@ -225,14 +225,17 @@ def checkCsv (inp : Input) (es : List Elem) (obs : ObsIn) : List Fail :=
 
 /-- `none`: the workbook is outside the fragment in which the spec can read the select rows -/
 def holds (inp : Input) (obs : ObsIn) : Except String (List Fail) :=
+  match inp.canon with
+  | none => .error "header / parameters cell"
+  | some inp =>
   let ci := inp.cleaned
   match walk [] inp.survey with
   | .error w => .error w
   | .ok (es, tbl) =>
     let lists := applyOthers es (choicesOf ci.choiceCols ci.choices)
-    let extLists := match ci.extRows with
-      | some rows => (groupByKey listKey rows).map (·.1)
-      | none => []
+    match extListNames ci with
+    | none => .error "external_choices header"
+    | some extLists =>
     match selsObs ci tbl lists extLists es with
     | .error w => .error w
     | .ok sels =>
